@@ -226,6 +226,27 @@ def lvnwAnswer (ws : List String) : String :=
       ++ "|" ++ (if showB.isEmpty then "" else " " ++ showB)
   | _, _, _ => "bad-line"
 
+/-- `ivuse POS B`: the nested loop `while (k = .., s = 0 [, w = 0]) { c = k >= ..; if c break s; ns = s + ..; nk = k + 1 }`
+inside the IV-elimination candidate; POS says where the outer counter `v0` is mentioned. The counter is
+eliminated iff the use analysis finds no use. -/
+def ivuseAnswer (ws : List String) : String :=
+  match ws with
+  | [pos, b] =>
+    match b.toInt? with
+    | some b =>
+      let i : Operand := .var 0
+      let kinit : Operand := if pos == "init" then i else .lit 0
+      let ibound : Operand := if pos == "guard" then i else .lit b
+      let addend : Operand := if pos == "body" then i else .var 10
+      let lvs := [(10, kinit, Operand.var 13), (11, Operand.lit 0, Operand.var 12)] ++
+        (if pos == "loopvalue" then [(14, Operand.lit 0, i)] else [])
+      let W : Loop := { lvs := lvs, body := [.s (.bin 15 .ge (.var 10) ibound), .sif (.var 15) false [.brk (.var (if pos == "loopvalue" then 14 else 11))],
+                                             .s (.bin 12 .add (.var 11) addend), .s (.bin 13 .add (.var 10) (.lit 1))] }
+      let extra := if pos == "print" then usesL 0 (.s (.print i)) else false
+      if usesLoop 0 W || extra then "kept" else "elim"
+    | none => "bad-line"
+  | _ => "bad-line"
+
 def licmAnswer (ws : List String) : String :=
   match parseS ws with
   | some p =>
@@ -291,6 +312,7 @@ def step (_ : Unit) (line : String) : Unit × String :=
       | _, _, _ => "bad-line"
     | "dce" :: rest => dceAnswer rest
     | "licm" :: rest => licmAnswer rest
+    | "ivuse" :: rest => ivuseAnswer rest
     | "lvn" :: rest => lvnAnswer rest
     | "lvnw" :: rest => lvnwAnswer rest
     | "cse" :: rest => cseAnswer rest
